@@ -31,6 +31,16 @@ CLAIMED = {
     text="The real BackwardAnalysis.run / ForwardAnalysis.run (with the real LivenessAnalysis / AssignmentAnalysis methods) are executed symbolically over an arbitrary CFG (uninterpreted blocks/variables, arbitrary real and dummy edge relations, arbitrary use/assign maps) with queue.pop() returning an ARBITRARY member; the worklist loop is cut at an inductive invariant (shape, 'every block outside the queue satisfies its equation', per-variable extremality against an arbitrary closed / post-fixpoint family). z3 proves initialisation, preservation and that at loop exit the result is a fixpoint and the unique extremal one, hence independent of the visiting order, for include_unreachable True and False. LivenessAnalysis.join's loop is proved against its contract; AssignmentAnalysis.__init__ establishes all_vars. Obligations left open by quantifier reasoning are re-checked on finite instances of the sorts to produce counter-models, which are replayed on the real classes under all pop orders.",
     note="predecessors are assumed inverse to successors; bbs closed under edges; lists modelled as sets; liveness dict abstracted to key set + witness; termination not proved; the 'path' reading of the extremal solution is the standard lemma (not mechanised).",
     technique="deductive: loop-invariant VCs generated from the real run() bodies by symbolic execution (arbitrary pop), z3 with quantifiers; finite-instance counter-model search for refutations"),
+ "C18": dict(
+    category="proof", design_ref="DESIGN.md §6 C18",
+    text="Guppy-mode symbolic execution of the real Range.__next__ over all 64-bit next/stop/step (operators dispatched through the extracted std/num.py bindings): one-step obligations O1 (yields `next` iff Python's range has an element there), O2 (successor is next+step when Python has a following element), O3 (successor exhausted otherwise) give by induction over the number of yields that the yielded sequence is Python's; constructors _range1/2/3/_range_comptime, the SizedIter size annotation and the overload order are checked against the source. O3 is split along the known wrap-around defect (known finding), its complement is proved.",
+    note="hugr op semantics assumed as in C04; the induction over yields is on paper; struct/Option modelled as records; replay is model-level (real source text under CPython with an int64 wrapper) because the emulator cannot run loops in this sandbox.",
+    technique="deductive: Guppy-mode VCs from the real iter.py bodies over 64-bit vectors, z3"),
+ "C27": dict(
+    category="proof", design_ref="DESIGN.md §6 C27",
+    text="Guppy-mode symbolic execution of every Stack and PriorityQueue method for an arbitrary capacity < 2^62 and an arbitrary well-formed state: Stack operations against the list view (push/pop/peek/len/next/empty, exact panic conditions, prefix unchanged); PriorityQueue push/pop/peek/next/empty preserve wf + heap order, pop/peek return the root, the ghost multiset of entries changes by exactly the pushed/popped entry, no spurious panic; sift-up and sift-down loops are cut at inductive invariants (heap-except-at-i with grandparent clause; hole-at-i). Root minimality from heap order: induction step discharged by z3. 133 obligations incl. an in-range obligation for every arithmetic result.",
+    note="array/Option cell primitives and the bag point-update law are assumed (guppycoll.py); ints are mathematical with explicit no-overflow obligations (relies on C04 for + - * // comparisons inside int64); induction schema for root minimality applied on paper. After a code change, obligations the solver leaves open are handed to a bounded model-level counterexample finder (C27_harness.py) that only supplies failing inputs.",
+    technique="deductive: loop-invariant VCs generated from the real collection bodies (Guppy mode, mathematical ints + overflow obligations), z3 with quantifiers over array indices"),
 }
 
 NOT_APPLICABLE = {
